@@ -72,7 +72,7 @@ Inductive rentry := RStart | RStop | RSt (e : event tagref) | RFired.
 
 (* StreamFailFast.status: `if test_status in (...)`, the tuple read from the live code (Gen/Failfast.v) *)
 Definition fires (s : option nat) : bool :=
-  match s with Some k => existsb (Nat.eqb k) failfast_statuses | None => false end.
+  match s with Some k => existsb (Nat.eqb k) failfast_statuses | None => failfast_on_none end.
 
 (* TimestampingStreamResult.status: timestamp = kwargs.pop("timestamp", None); if None: now(utc) *)
 Definition stamp (t : tsv) : tsv := match t with TsNone => TsFilled | x => x end.
@@ -131,10 +131,23 @@ Fixpoint set_nth {A} (l : nat) (v : A) (st : list A) : list A :=
   | x :: r, S k => x :: set_nth k v r
   end.
 
+(* one (empty) list of new entries per leaf *)
+Definition quiet (n : node) : list (list rentry) := map (fun _ => []) (signal n RStart).
+
 Definition step (n : node) (o : op) (st : store) : list (list rentry) * store :=
   match o with
   | OStart => (signal n RStart, st)
   | OStop => (signal n RStop, st)
   | OStatus e => deliver n e st
-  | OMutate l v => (signal n RStart, set_nth l v st)    (* placeholder shape, replaced below *)
+  | OMutate l v => (quiet n, set_nth l v st)
   end.
+
+(* per call: what every leaf newly logged (by reference) and the store after the call *)
+Fixpoint run (n : node) (ops : list op) (st : store) : list (list (list rentry) * store) :=
+  match ops with
+  | [] => []
+  | o :: r => let (out, st') := step n o st in (out, st') :: run n r st'
+  end.
+
+Definition final_store (n : node) (ops : list op) (st : store) : store :=
+  last (map snd (run n ops st)) st.
